@@ -21,6 +21,15 @@ def run(ctx):
     r1(ctx)
     r2(ctx)
     r3(ctx)
+    # R2, last link: "drops the allocation reference (whose teardown removes the temp dir)" - the final unref runs the transport's
+    # disconnect on every path to the free (= C04.R3), also for a connection that never left INACTIVE
+    from rules import c04
+    sub = type(ctx)(ctx.prog, ctx.prop, ctx.tier, ctx.depth)
+    c04.r3(sub)
+    for r in sub.results:
+        if r['key'] == 'transport-disconnect-on-every-path-to-free':
+            r['rule'] = 'R2'
+            ctx.results.append(r)
 
 
 def r1(ctx):
